@@ -265,13 +265,52 @@ func init() {
 		}
 		e.P("/-- config/global.go: HlsFragment() returns max(configured value, this) -/")
 		e.P("def hlsFragmentMin : Nat := %d", minFrag)
+		// segmentClose: the finished segment's file is closed (for a persistent file: flushed) by a plain
+		// statement BEFORE the segment enters the playlist — a client can fetch it from that moment on
+		closedFirst, cok := false, false
+		if fd := FuncDecl(sgF, "SegmentGenerator", "segmentClose"); fd != nil && fd.Body != nil {
+			iClose, iDefer, iList, nClose, nList := -1, -1, -1, 0, 0
+			for i, st := range fd.Body.List {
+				ast.Inspect(st, func(n ast.Node) bool {
+					if c, ok := n.(*ast.CallExpr); ok {
+						switch norm(c) {
+						case "curr.file.close()":
+							nClose++
+							switch st.(type) {
+							case *ast.ExprStmt:
+								iClose = i
+							case *ast.DeferStmt:
+								iDefer = i
+							default:
+								nClose += 100 // inside some other statement: not recognised
+							}
+						case "sg.playlist.addSegment(curr)":
+							nList++
+							iList = i
+						}
+					}
+					return true
+				})
+			}
+			switch {
+			case nClose == 1 && nList == 1 && iClose >= 0 && iClose < iList:
+				closedFirst, cok = true, true
+			case nClose == 1 && nList == 1 && (iDefer >= 0 || iClose > iList):
+				closedFirst, cok = false, true // closed when the function returns / after the listing
+			}
+		}
+		if !cok {
+			e.Unknown("SegmentGenerator.segmentClose.order")
+		}
+		e.P("/-- segmentgenerator.go segmentClose: curr.file.close() is a plain statement before sg.playlist.addSegment(curr) (false: deferred or after it) -/")
+		e.P("def segmentClosedBeforeListed : Bool := %s", LeanBool(closedFirst))
 		// the call order of reapSegment: close, open, flush audio
 		order := []string{}
 		if fd := FuncDecl(sgF, "SegmentGenerator", "reapSegment"); fd != nil {
 			ast.Inspect(fd, func(n ast.Node) bool {
 				if c, ok := n.(*ast.CallExpr); ok {
-					if s, ok := c.Fun.(*ast.SelectorExpr); ok && Src(s.X) == "sg" {
-						order = append(order, s.Sel.Name)
+					if s, ok := c.Fun.(*ast.SelectorExpr); ok && Src(s.X) == "sg" && s.Sel.Name != "verifPoint" {
+						order = append(order, s.Sel.Name) // (verifPoint: the harness's schedule point, a no-op without build tag verif)
 					}
 				}
 				return true
